@@ -242,7 +242,7 @@ func TestRouteDifferential(t *testing.T) {
 // tree by props/c07/prebuild.sh) and compares its output with the reference.
 func TestAmtoolAgreement(t *testing.T) {
 	run := vf.Cur()
-	sub := run.Sub("amtool-agreement", "amtool config routes test --config.file on a generated tree and label set; printed receivers must equal the reference routing; non-trivial when the tree has >=2 nodes", 10)
+	sub := run.Sub("amtool-agreement", "amtool config routes test --tree --config.file on a generated tree and label set; the printed receivers AND the routes marked in the printed matching tree must equal the reference routing; non-trivial when the tree has >=2 nodes", 10)
 	amtool := filepath.Join(vf.Root, "build", "amtool")
 	if _, err := os.Stat(amtool); err != nil {
 		run.Broken("amtool binary missing: " + err.Error())
@@ -262,7 +262,7 @@ func TestAmtoolAgreement(t *testing.T) {
 		nodes := 0
 		ref.Walk(func(*model.Node) { nodes++ })
 		l := gen.LabelSet(r)
-		args := []string{"config", "routes", "test", "--config.file=" + fn}
+		args := []string{"config", "routes", "test", "--tree", "--config.file=" + fn}
 		for k, v := range l {
 			args = append(args, k+"="+v)
 		}
@@ -280,6 +280,18 @@ func TestAmtoolAgreement(t *testing.T) {
 		sub.Case(vf.Digest(y, l.Key(), got), nodes >= 2)
 		if got != strings.Join(want, ",") {
 			sub.Violation("amtool-differs", map[string]any{"config": y, "labels": l, "amtool": got, "ref": want})
+		}
+		// the matching tree printed above that line (--tree) marks the chosen routes with "receiver: <name>",
+		// depth first, i.e. in routing order
+		var tree []string
+		for _, ln := range lines[:len(lines)-1] {
+			if k := strings.LastIndex(ln, "receiver: "); k >= 0 {
+				tree = append(tree, strings.TrimSpace(ln[k+len("receiver: "):]))
+			}
+		}
+		sub.Count("matching_trees_compared", 1)
+		if strings.Join(tree, ",") != strings.Join(want, ",") {
+			sub.Violation("amtool-matching-tree-differs-from-routing", map[string]any{"config": y, "labels": l, "tree_receivers": tree, "ref": want, "output": string(out)})
 		}
 		if sub.WantSample() {
 			sub.Sample(map[string]any{"config": y, "labels": l, "amtool": got})
@@ -325,5 +337,55 @@ func TestRootAlwaysMatches(t *testing.T) {
 		} else {
 			sub.Count("accepted_by_loader", 1)
 		}
+	})
+}
+
+// TestUndefinedReceiverAnywhere: "every alert is always routed to at least one receiver" rests on the
+// loader refusing a tree in which ANY node names a receiver that is not defined - whatever the
+// node's depth and position among its siblings. When the loader accepts such a file, the receivers
+// the routing yields for probe label sets are checked against the defined names.
+func TestUndefinedReceiverAnywhere(t *testing.T) {
+	run := vf.Cur()
+	sub := run.Sub("undefined-receiver-anywhere", "generated trees (depth <= 3, fan-out <= 4) in which ONE node, chosen uniformly among all non-root nodes (first, middle, last sibling; any depth), names a receiver missing from the receivers list: config.Load must reject the file; if it accepts it, dispatch.Route.Match over 24 label sets must not yield a route whose receiver is undefined; non-trivial = the chosen node is not the last child of its parent; distinct by (config)", 50)
+	n := run.N(400, 40000)
+	vf.Parallel(t, n, 16, func(t *testing.T, i int) {
+		r := sub.Rand(i)
+		spec := gen.RouteTree(r, gen.RouteOpt{MaxDepth: 1 + r.Intn(3), MaxFanout: 2 + r.Intn(3), Receivers: receivers, Legacy: true})
+		type slot struct {
+			n    *model.RouteSpec
+			last bool
+		}
+		var slots []slot
+		var walk func(n *model.RouteSpec)
+		walk = func(n *model.RouteSpec) {
+			for k, c := range n.Routes {
+				slots = append(slots, slot{c, k == len(n.Routes)-1})
+				walk(c)
+			}
+		}
+		walk(spec)
+		if len(slots) == 0 {
+			return
+		}
+		s := slots[r.Intn(len(slots))]
+		s.n.Receiver = "undefined-receiver"
+		y := configYAML(spec)
+		sub.Case(vf.Digest(y), !s.last)
+		cfg, err := config.Load(y)
+		if err != nil {
+			sub.Count("rejected_by_loader", 1)
+			return
+		}
+		w := map[string]any{"config": y, "node_is_last_child": s.last}
+		for _, l := range gen.LabelSets(r, 24) {
+			for _, rt := range dispatch.NewRoute(cfg.Route, nil).Match(toLS(l)) {
+				if rt.RouteOpts.Receiver == "undefined-receiver" {
+					w["labels"] = l
+					sub.Violation("alert-routed-to-an-undefined-receiver", w)
+					return
+				}
+			}
+		}
+		sub.Violation("configuration-naming-an-undefined-receiver-accepted", w)
 	})
 }
